@@ -65,6 +65,7 @@ def eC (c : Ctx) : Ctx := { c with positions := false, doc := eraseDoc c.doc }
 @[simp] theorem eC_doc (c : Ctx) : (eC c).doc = eraseDoc c.doc := rfl
 @[simp] theorem eC_nodesLimit (c : Ctx) : (eC c).nodesLimit = c.nodesLimit := rfl
 @[simp] theorem eC_nsStartIdx (c : Ctx) : (eC c).nsStartIdx = c.nsStartIdx := rfl
+@[simp] theorem eC_xmlDeclared (c : Ctx) : (eC c).xmlDeclared = c.xmlDeclared := rfl
 @[simp] theorem eC_curAttrs (c : Ctx) : (eC c).curAttrs = c.curAttrs := rfl
 @[simp] theorem eC_awaiting (c : Ctx) : (eC c).awaiting = c.awaiting := rfl
 @[simp] theorem eC_parentPrefixes (c : Ctx) : (eC c).parentPrefixes = c.parentPrefixes := rfl
@@ -301,7 +302,7 @@ theorem processElement_eC (txt : Bytes) (c : Ctx) (e : EndKind) (tokRange : Rang
     intro ⟨c1, nss⟩
     dsimp only [eC2]
     refine bind_sim (m0 := resolveAttributes txt _ nss)
-      (resolveAttributes_eC txt { c1 with nsStartIdx := c1.doc.ns.treeOrder.size } nss) ?_
+      (resolveAttributes_eC txt { c1 with nsStartIdx := c1.doc.ns.treeOrder.size, xmlDeclared := false } nss) ?_
     intro ⟨c2, attrs⟩
     cases e with
     | empty =>
@@ -392,21 +393,20 @@ theorem processAttribute_eC (T : Tables) (txt : Bytes) (c : Ctx) (range : Range)
   dsimp only [eC2]
   rw [log_eC]
   generalize c1.log _ = c2
-  simp only [eC_doc, eraseDoc_ns, eC_nsStartIdx, eC_curAttrs]
+  simp only [eC_doc, eraseDoc_ns, eC_nsStartIdx, eC_curAttrs, eC_xmlDeclared]
   repeat' split
   all_goals first
     | simp only [mapOk_errPos]
     | rfl
     | (refine bind_same ?_
        intro ex
-       cases ex
-       · simp only [Bool.false_eq_true, ↓reduceIte]
-         first
-           | rfl
-           | (refine bind_same ?_
-              intro ns
-              rfl)
-       · simp only [↓reduceIte, mapOk_errPos])
+       repeat' split
+       all_goals first
+         | simp only [mapOk_errPos]
+         | rfl
+         | (refine bind_same ?_
+            intro ns
+            rfl))
 theorem processCdata_eC (c : Ctx) (text : Span) (range : Range) :
     processCdata (eC c) text range = Res.mapOk eC (processCdata c text range) := by
   unfold processCdata
